@@ -64,6 +64,16 @@ Theorem C14_check_accepted_sound acc d :
 Proof. exact (check_accepted_sound acc d). Qed.
 Print Assumptions C14_check_accepted_sound.
 
+(* the economical evaluation of the same conditions, which is what the check runs *)
+Theorem C14_check_accepted_fast_sound acc d :
+  check_accepted_fast acc d = true ->
+  forall s t b, s <> recomputed_tag ->
+  exists r, filter_stats ztruthy d (kw_tt (Some s) t) (Some b) = Some r /\
+    (exists P, r = filter P d) /\
+    forall kv, In kv r <-> In kv d /\ matchesP (kw_tt (Some s) t) (fst kv) /\ In (fst kv) acc.
+Proof. exact (check_accepted_fast_filter acc d). Qed.
+Print Assumptions C14_check_accepted_fast_sound.
+
 (* ... and the conditions are needed: with the restart counts the pinned BasicRestartingNonMPI produces
    (1/3/2 instead of 3/3/0) an accepted step is dropped (3 'niter' records for 4 accepted steps) *)
 Theorem C14_filter_recomputed_drops_accepted_refuted :
